@@ -38,6 +38,14 @@ type c14Scenario struct {
 	// StopAt > 0: the first run is stopped (context cancelled, source closed) in front of the first
 	// item of symbol number StopAt: the rest of the stream is traffic for the following starts
 	StopAt int `json:"stop_at,omitempty"`
+	// Lost > 0 (family 'lostreply', c14s_test.go): number of connection losses (the target stays up, every
+	// connection is dropped right after the target processed request k of a run), each followed by an
+	// in-process restart (same RedisOutput: StartPoint, SetRunId, Send)
+	Lost int `json:"lost_conns,omitempty"`
+	// Pre (family 'lostreply'): what the first judged start finds on the target: "" = nothing, "root" = only
+	// the root checkpoint (a previous process ran the full sync and no unit), "records" = root checkpoint and
+	// recovery records (a previous process replayed the stream up to symbol StopAt)
+	Pre string `json:"pre,omitempty"`
 }
 
 type c14Run struct {
@@ -51,6 +59,7 @@ type c14Run struct {
 	Crashed   bool
 	Completed bool
 	Idle      bool
+	Lost      bool // the run (or the in-process start sequence) lost its connections; the target stayed up
 }
 
 type c14Rec struct {
@@ -325,10 +334,17 @@ func oracleC14(scn c14Scenario, rec *c14Rec) mc.Result {
 		// position writes under both ids are ONE history); the signature names the family
 		mode += ":failover"
 	}
+	if scn.Lost > 0 {
+		// family 'lostreply': the same clauses, every in-process start is a start like any other
+		mode += ":lostreply"
+	}
 	if rec.Early != nil {
 		r := *rec.Early
 		if scn.Rekey > 0 {
 			r.Sig += ":failover"
+		}
+		if scn.Lost > 0 {
+			r.Sig += ":lostreply"
 		}
 		r.Detail = map[string]interface{}{"detail": r.Detail, "history": rec.describe()}
 		return r
@@ -485,6 +501,9 @@ func oracleC14(scn c14Scenario, rec *c14Rec) mc.Result {
 			if !rec.Runs[prevRun].Crashed {
 				kind = "after-clean-stop"
 			}
+			if rec.Runs[prevRun].Lost {
+				kind = "after-lost-connection"
+			}
 			return mc.Violation("the resume point moved backwards between two successive starts", fmt.Sprintf("C14:resume-regressed:%s:%s", mode, kind),
 				map[string]interface{}{"run": k, "resume": rr.Offset, "previous_run": prevRun, "previous_resume": prev, "history": rec.describe()})
 		}
@@ -515,6 +534,9 @@ func oracleC14(scn c14Scenario, rec *c14Rec) mc.Result {
 	parts := maskedLog(rec.Exec)
 	for _, r := range rec.Runs {
 		parts = append(parts, fmt.Sprintf("run:%d:%v:%v", r.Offset, r.FullSync, r.Crashed))
+		if r.Lost {
+			parts = append(parts, "lost")
+		}
 	}
 	return mc.OK(mc.Hash(parts...), biz > 0 && (crashes > 0 || len(rec.Runs) > 1), rec.Events)
 }
@@ -524,7 +546,13 @@ func runC14(t *testing.T, rep *mc.Reporter) {
 	tier := mc.Tier()
 	budget := &mc.Budget{Deadline: mc.DeadlineFromEnv()}
 	exec := func(scn c14Scenario, ch *mc.Chooser) mc.Result {
-		rec, mach := c14Exec(t, scn, ch)
+		var rec c14Rec
+		var mach string
+		if scn.Lost > 0 {
+			rec, mach = c14sExec(t, scn, ch)
+		} else {
+			rec, mach = c14Exec(t, scn, ch)
+		}
 		if mach != "" {
 			return mc.Result{Verdict: "machinery", Clause: mach}
 		}
@@ -699,7 +727,7 @@ func runC14(t *testing.T, rep *mc.Reporter) {
 		cplans = tplans
 		plans = nil
 	}
-	if fam == "big" || fam == "failover" || fam == "failoverc" {
+	if fam == "big" || fam == "failover" || fam == "failoverc" || fam == "lostreply" {
 		cplans = nil
 	}
 	// ---- family 'failover' (c14r_test.go): the source's replication id changes between two starts.
@@ -707,6 +735,11 @@ func runC14(t *testing.T, rep *mc.Reporter) {
 	// families below must not leave it out
 	if fam == "" || fam == "failover" || fam == "failoverc" {
 		c14FailoverFamily(t, rep, tier, shard, nshards, &idx, budget, cbudget, exec, fam == "failoverc")
+	}
+	// ---- family 'lostreply' (c14s_test.go): connection losses with the target staying up (request executed,
+	// reply lost), each followed by an in-process restart; its own small share of the deadline
+	if fam == "" || fam == "lostreply" {
+		c14LostReplyFamily(t, rep, tier, shard, nshards, &idx, budget, exec, fam == "lostreply")
 	}
 	for _, cp := range cplans {
 		// one execution costs about half a second (every start scans the 16384 slots): all shards
